@@ -23,7 +23,7 @@ ANCHORS = [
     "raggedarray/raggedslice.py::ragged_slice", "mixin.py::NPSIndexable.__getitem__", "raggedarray/__init__.py::RaggedArray._as_padded_matrix",
 ]
 OPS = ["concat0", "concat1", "like", "padded", "nonzero", "where", "subset", "maskidx", "rslice_ra", "rslice_1d", "rslice_2d", "nps"]
-FLOOR_TAGS = ["op:" + o for o in OPS] + ["ends:none", "ends:inside", "ends:negative", "ends:beyond", "where:xy", "where:xs", "where:xx", "operands:same-object", "where:scalar-other-kind", "where:mask-not-bool", "mask:allfalse", "mask:alltrue",
+FLOOR_TAGS = ["op:" + o for o in OPS] + ["ends:none", "ends:inside", "ends:negative", "ends:beyond", "where:xy", "where:xs", "where:xx", "operands:same-object", "where:scalar-other-kind", "where:mask-not-bool", "bounds:narrow-type", "bounds:cells-exceed-type", "mask:allfalse", "mask:alltrue",
                                          "operand:norows", "operand:allempty", "side:left", "side:right", "recv:fresh", "recv:lazyrows", "recv:lazycols+2", "starts:none"]
 FLOOR_MONITORS = ["c08:compare", "c08:arguments-unchanged"]
 FP_STRICT = True       # a floating-point event inside the library that the dense computation does not have is a violation (shard.FpMonitor)
@@ -273,10 +273,18 @@ def run_dense_slice(case, tags):
     lib = CTX.lib
     op = case["op"]
     dt = np.dtype(case["dtype"])
-    starts = np.array(case["starts"], dtype=np.int64)
-    ends = np.array(case["ends"], dtype=np.int64)
+    bdt = case.get("bdtype", "int64")        # the bounds in any integer type that holds them (not necessarily the number of cells of the input)
+    if any(not (np.iinfo(bdt).min <= x <= np.iinfo(bdt).max) for x in list(case["starts"]) + list(case["ends"])):
+        bdt = "int64"
+    starts = np.array(case["starts"], dtype=bdt)
+    ends = np.array(case["ends"], dtype=bdt)
+    if bdt != "int64":
+        tags.append("bounds:narrow-type")
     if op == "rslice_2d":
-        M = np.array(case["vals"], dtype=dt).reshape(case["shape"])
+        vals_ = case["vals"] if not isinstance(case["vals"], str) else (np.arange(case["shape"][0] * case["shape"][1]) % 251).tolist()
+        M = np.array(vals_, dtype=dt).reshape(case["shape"])
+        if M.size > np.iinfo(bdt).max:
+            tags.append("bounds:cells-exceed-type")
         exp = [M[i, s:e] for i, (s, e) in enumerate(zip(starts.tolist(), ends.tolist()))]
         a = attempt(lambda: lib.ragged_slice(M, starts, ends))
         desc = "ragged_slice(%s matrix %s, %s, %s)" % (dt, short(M, 100), starts.tolist(), ends.tolist())
@@ -327,11 +335,13 @@ def gen_case(rng, tier, op=None, lens=None, dtype=None, recv=None):
         Lv = rng.randint(1, 9)
         k = rng.randint(0, 5)
         st = [rng.randint(0, Lv) for _ in range(k)]
-        return {"op": op, "dtype": dtype, "vals": gen.values(rng, dtype, Lv, "small").tolist(), "starts": st, "ends": [rng.randint(s, Lv) for s in st]}
+        return {"op": op, "dtype": dtype, "vals": gen.values(rng, dtype, Lv, "small").tolist(), "starts": st, "ends": [rng.randint(s, Lv) for s in st],
+                "bdtype": rng.choice(["int64", "int64", "int32", "int16", "uint8"])}
     if op == "rslice_2d":
         r_, c_ = rng.randint(0, 4), rng.randint(0, 5)
         st = [rng.randint(0, c_) for _ in range(r_)]
-        return {"op": op, "dtype": dtype, "shape": [r_, c_], "vals": gen.values(rng, dtype, r_ * c_, "small").tolist(), "starts": st, "ends": [rng.randint(s, c_) for s in st]}
+        return {"op": op, "dtype": dtype, "shape": [r_, c_], "vals": gen.values(rng, dtype, r_ * c_, "small").tolist(), "starts": st, "ends": [rng.randint(s, c_) for s in st],
+                "bdtype": rng.choice(["int64", "int64", "int32", "int16", "int8", "uint8", "uint64"])}
     lens_ = L()
     a = spec(rng, lens_, dtype, rv(), "sparse" if op in ("nonzero", "padded") and rng.random() < 0.8 else "small")
     c = {"op": op, "a": a}
@@ -397,6 +407,10 @@ def directed():
         ll[17] = 4
         for side_ in ("left", "right"):
             yield {"op": "padded", "a": {"lens": ll, "dtype": "int8", "vals": [(i % 5) + 1 for i in range(sum(ll))], "recv": "fresh"}, "side": side_, "fill": -1}
+    # matrices with more cells than the integer type of the window bounds can count (every bound itself is small)
+    for (r_, c_), bd_ in (((300, 150), "int16"), ((200, 100), "int8"), ((2, 200), "uint8"), ((40000, 2), "int16"), ((600, 120), "uint16")):
+        st_ = [(i * 7) % (c_ // 2) for i in range(r_)]
+        yield {"op": "rslice_2d", "dtype": "int32", "shape": [r_, c_], "vals": "arange", "starts": st_, "ends": [s_ + (i % (c_ // 2)) for i, s_ in enumerate(st_)], "bdtype": bd_}
     shapes = [[], [0], [0, 0], [3], [0, 2, 3], [2, 3, 0], [2, 0, 0, 3], [1, 1, 1], [0, 12, 1], [4, 1, 0, 2]]
     for lens in shapes:
         for op in OPS:
